@@ -109,7 +109,7 @@ def scenario(i, T, PT=None):
 '''
 
 
-def _history_obl(probe, rows, timeout, nsel=3, first=None, probe_first=True):
+def _history_obl(probe, rows, timeout, nsel=3, first=None, probe_first=True, last_domain=None):
     if probe == 'avgstr':
         # numeric STRING cells ('7', or the non-numeric 'x', chosen by a symbolic bool): float results are concrete per path
         pa, pb, po, texpr = qh.table_params('a', ['kp'] * (rows - 1), krange=3)
@@ -137,8 +137,10 @@ return ((g0, g1), (e0, e1))
     selpre = ['0 <= %s <= 20' % n for n, _t in sels]
     if first is not None:
         selpre[0] = 'h0 == %d' % first
+    if last_domain is not None:
+        selpre[-1] = 'h%d in %r' % (nsel - 1, tuple(last_domain))   # the last step ranges over a rotating sub-family (keeps a 3-step shard within its time budget)
     src = harness('PROBE = %r\nPROBE_FIRST = %r\n' % (probe, probe_first), sels + pa, selpre + pb + po, body, extra_defs=HIST_SRC)
-    return Obl('history[probe=%s,rows=%d,len=%d%s%s]' % (probe, rows, nsel, (',first=%d' % first) if first is not None else '', '' if probe_first else ',history-first'), src, timeout=timeout,
+    return Obl('history[probe=%s,rows=%d,len=%d%s%s]' % (probe, rows, nsel, (',first=%d' % first) if first is not None else '', ('' if probe_first else ',history-first') + ((',last=' + '/'.join(map(str, last_domain))) if last_domain is not None else '')), src, timeout=timeout,
                meta={'query': TEXT[probe], 'bounds': 'every history of %d steps over 20 scenarios (+ nothing) x every %d-row table of ints 0..2' % (nsel, rows)})
 
 
@@ -257,7 +259,10 @@ def obligations(tier, seed):
             obs.append(_history_obl(p, 2, t, nsel=2, first=first, probe_first=pf))
             if not quick:
                 obs.append(_history_obl(p, 2, t, nsel=2, first=first, probe_first=not pf))
-                obs.append(_history_obl(p, 3, t, nsel=3, first=first, probe_first=pf))
+                if (first + pi + seed) % 4 == 0:
+                    # three steps: first pinned, second free over all 20 scenarios, third over a rotating quarter of them
+                    k = (first + 2 * pi + seed) % 5
+                    obs.append(_history_obl(p, 2, t, nsel=3, first=first, probe_first=pf, last_domain=[0] + [x for x in range(1, 21) if x % 5 == k]))
     kinds = ['agg', 'unnest', 'like', 'dcount', 'sorted', 'update', 'divide', 'top', 'minmax']
     pairs = []
     for i, a in enumerate(kinds):
